@@ -68,6 +68,18 @@ func New(ns string, input string) (*xmpp.Session, *RW, error) {
 	return s, rw, err
 }
 
+// NewUnaddressed is like New for a received session that knows no address at
+// all (the peer's stream header carried neither to nor from).
+func NewUnaddressed(ns string, input string) (*xmpp.Session, *RW, error) {
+	rw := &RW{In: bytes.NewReader([]byte(Header(ns) + input))}
+	st := xmpp.Received
+	if ns == stanza.NSServer {
+		st |= xmpp.S2S
+	}
+	s, err := xmpp.NewSession(context.Background(), jid.JID{}, jid.JID{}, rw, st, ReadyNegotiator(ns, 0))
+	return s, rw, err
+}
+
 // NewRW is like New for an arbitrary ReadWriter; the header is consumed from it.
 func NewRW(ns string, rw io.ReadWriter, state xmpp.SessionState) (*xmpp.Session, error) {
 	if ns == stanza.NSServer {
